@@ -46,7 +46,7 @@ def i(t, x):
 # leaf operator impls: (op, A, B, C, kind) kind: 'map' = BTreeMap merge (assumed, uninterpreted remainder), 'free' = map-free (remainder 0)
 LEAVES = [
     ('add', 'Linear', 'f64', 'Linear', 'free'), ('add', 'Linear', 'Linear', 'Linear', 'merge'),
-    ('add', 'Quadratic', 'f64', 'Quadratic', 'free'), ('add', 'Quadratic', 'Linear', 'Quadratic', 'map'), ('add', 'Quadratic', 'Quadratic', 'Quadratic', 'map'),
+    ('add', 'Quadratic', 'f64', 'Quadratic', 'free'), ('add', 'Quadratic', 'Linear', 'Quadratic', 'deleg'), ('add', 'Quadratic', 'Quadratic', 'Quadratic', 'map'),
     ('add', 'Polynomial', 'f64', 'Polynomial', 'map'), ('add', 'Polynomial', 'Linear', 'Polynomial', 'map'), ('add', 'Polynomial', 'Quadratic', 'Polynomial', 'map'),
     ('add', 'Polynomial', 'Polynomial', 'Polynomial', 'map'),
     ('mul', 'Linear', 'f64', 'Linear', 'free'), ('mul', 'Linear', 'Linear', 'Quadratic', 'map'),
@@ -74,7 +74,13 @@ def spec_impl(op, a, b, c, req='true'):
 def leaf_spec_text():
     out = ['// ---- leaf remainders: 0 for map-free code, uninterpreted for the assumed BTreeMap-merge leaves ----\n']
     for op, a, b, c, kind in LEAVES:
-        sig = 'pub %s spec fn %s(x: v1::%s, y: %s, m: Map<u64, F64>) -> real' % ('open' if kind in ('free', 'merge') else 'uninterp', rem_name(op, a, b), a, 'F64' if b == 'f64' else 'v1::' + b)
+        sig = 'pub %s spec fn %s(x: v1::%s, y: %s, m: Map<u64, F64>) -> real' % ('open' if kind in ('free', 'merge', 'deleg') else 'uninterp', rem_name(op, a, b), a, 'F64' if b == 'f64' else 'v1::' + b)
+        if kind == 'deleg':
+            # verified leaf that delegates to Linear + Linear on the linear part
+            assert (op, a, b) == ('add', 'Quadratic', 'Linear')
+            out.append('pub open spec fn rem_add_quadratic_linear(x: v1::Quadratic, y: v1::Linear, m: Map<u64, F64>) -> real {\n'
+                       '    match x.linear { Some(l) => rem_add_linear_linear(l, y, m), None => 0real }\n}\n')
+            continue
         if kind == 'merge':
             # verified leaf: the remainder is DEFINED as the difference to the specified BTreeMap merge (accumulate, drop when |sum| <= EPSILON)
             assert (op, a, b) == ('add', 'Linear', 'Linear')
@@ -506,3 +512,41 @@ pub fn new(terms: Vec<(u64, F64)>, constant: F64) -> (r: Linear)
                 proofs=[(('before', r'let __h1 = terms;'), 'let ghost ch = pairs_terms(terms@);\n        '),
                         (('before', r'Self \{\s*terms: __t'), final_proof)],
                 post_subs=[('terms: btree_into_terms(merged),', 'terms: __t,')])
+
+
+
+def quadratic_add_linear():
+    return Unit('Add<Linear> for Quadratic', 'quadratic.rs', 'add', impl=r'impl Add<Linear> for Quadratic \{', sig='fn add(mut self, rhs: Linear) -> Self', anyhow=False, mut_self=True,
+                pre=spec_impl('add', 'Quadratic', 'Linear', 'Quadratic'), wrap=('impl core::ops::Add<Linear> for Quadratic { type Output = Quadratic;', '}'),
+                header='fn add(self, rhs: Linear) -> (r: Quadratic)\n        ensures ' + contract('add', 'Quadratic', 'Linear', 'Quadratic') + '\n            r.rows == self.rows && r.columns == self.columns && r.values == self.values,')
+
+
+def typed_macro_units():
+    """macro instances between typed operands whose callees are all verified units: linear.rs, and the Linear-operand instances of quadratic.rs"""
+    U = []
+    NEG = {'f64': 'neg_f64', 'Linear': 'neg_linear', 'Quadratic': 'neg_quadratic'}
+
+    def si(tr, op, a, b, c):
+        return ('impl %sSpecImpl<%s> for %s { open spec fn obeys_%s_spec() -> bool { false } open spec fn %s_req(self, rhs: %s) -> bool { true } '
+                'open spec fn %s_spec(self, rhs: %s) -> %s { arbitrary() } }\n' % (tr, T[b]['rust'], T[a]['rust'], op, op, T[b]['rust'], op, T[b]['rust'], T[c]['rust']))
+
+    def unit(file, macro, args, ln, fname, wrap_head, pre, header, proofs=()):
+        t = core.expand_macro('macros.rs', macro, args)
+        return Unit('%s!(%s)' % (macro, ', '.join(args)), file, fname, text=(t, ln), anyhow=False, pre=pre, wrap=(wrap_head, '}'), header=header, proofs=list(proofs),
+                    rsubs=[(r'<(\w+)>::from\(', r'\1::from(', None)])
+    # the instances we can decide: (file, macro, (lhs, rhs)) -> contract of the callee with swapped operands / exact negation
+    for file, ty in (('linear.rs', 'Linear'), ('quadratic.rs', 'Quadratic')):
+        for args, ln in core.macro_invocations(file, 'impl_add_inverse'):
+            a, b = args
+            if b != ty or a not in ('f64', 'Linear'):
+                continue
+            # a + b is computed as b + a: the contract of (b + a) with the operands swapped
+            U.append(unit(file, 'impl_add_inverse', args, ln, 'add', 'impl core::ops::Add<%s> for %s { type Output = %s;' % (T[b]['rust'], T[a]['rust'], T[b]['rust']), si('Add', 'add', a, b, b),
+                          'fn add(self, rhs: %s) -> (r: %s)\n        ensures %s' % (T[b]['rust'], T[b]['rust'], contract('add', b, a, b, lhs='rhs', rhs='self'))))
+        for args, ln in core.macro_invocations(file, 'impl_mul_inverse'):
+            a, b = args
+            if b != ty or a != 'f64':
+                continue
+            U.append(unit(file, 'impl_mul_inverse', args, ln, 'mul', 'impl core::ops::Mul<%s> for %s { type Output = %s;' % (T[b]['rust'], T[a]['rust'], T[b]['rust']), si('Mul', 'mul', a, b, b),
+                          'fn mul(self, rhs: %s) -> (r: %s)\n        ensures %s' % (T[b]['rust'], T[b]['rust'], contract('mul', b, a, b, lhs='rhs', rhs='self'))))
+    return U
